@@ -232,7 +232,7 @@ import monkeytype.typing as MT  # noqa: E402
 
 POSITIONS = (
     "arg", "arg-in-list", "arg-in-tuple", "arg-dict-value-strkey", "arg-dict-value-intkey", "arg-dict-key", "arg-in-set",
-    "arg-defaultdict-value", "return", "return-in-list", "yield", "receiver", "global-unrelated", "global-named-like-function",
+    "arg-defaultdict-value", "arg-in-list-in-list", "arg-in-tuple-in-tuple", "arg-in-dict-in-dict", "return", "return-in-list", "yield", "receiver", "global-unrelated", "global-named-like-function",
     "caller-local", "first-arg-of-unresolvable",
 )
 _RET_OP = sorted(RETURN_OPS)[0]
@@ -256,7 +256,8 @@ def hookfree_body(t, k):
     wrapped = {
         "arg": lambda: obj, "arg-in-list": lambda: [obj], "arg-in-tuple": lambda: (obj, 1), "arg-dict-value-strkey": lambda: {"a": obj},
         "arg-dict-value-intkey": lambda: {1: obj}, "arg-dict-key": lambda: {obj: 1}, "arg-in-set": lambda: {obj},
-        "arg-defaultdict-value": lambda: TW.defaultdict(int, a=obj), "return": lambda: obj, "return-in-list": lambda: [obj], "yield": lambda: obj,
+        "arg-defaultdict-value": lambda: TW.defaultdict(int, a=obj), "arg-in-list-in-list": lambda: [[obj]],
+        "arg-in-tuple-in-tuple": lambda: ((obj,),), "arg-in-dict-in-dict": lambda: {"a": {"a": obj}}, "return": lambda: obj, "return-in-list": lambda: [obj], "yield": lambda: obj,
     }
     value = wrapped[pos]() if pos in wrapped else obj
     logger = ListLogger()
